@@ -564,6 +564,7 @@ def main():
   # both node indexes are exactly that set (a stale index entry is how invalidation misses a dependent)
   from vlib.pysym import runner
   common.setup_grist_path()
+  runner.semantics_selfcheck(rep)
   runner.run_property(rep, "contracts.C05_graph", bounded=False)
   return rep.finish()
 
